@@ -17,6 +17,7 @@ import (
 	"go/token"
 	"os"
 	"path/filepath"
+	"regexp"
 	"sort"
 	"strconv"
 	"strings"
@@ -109,30 +110,76 @@ func chainOf(fd *ast.FuncDecl) []string {
 	return out
 }
 
-// singleDefComposite: the composite literal a local is bound to, when the local is defined once and never
-// assigned or appended to again.
+// singleDefComposite: the elements of the slice a local holds when it reaches the call: `x := []T{…}` (or
+// `var x []T`) followed only by straight-line `x = append(x, …)` statements at the top level of the function.
 func singleDefComposite(fd *ast.FuncDecl, name string) *ast.CompositeLit {
-	var lit *ast.CompositeLit
-	n := 0
-	ast.Inspect(fd.Body, func(x ast.Node) bool {
-		if as, ok := x.(*ast.AssignStmt); ok {
-			for i, l := range as.Lhs {
-				if id, ok := l.(*ast.Ident); ok && id.Name == name {
-					n++
-					if as.Tok == token.DEFINE && len(as.Lhs) == len(as.Rhs) {
-						if cl, ok := as.Rhs[i].(*ast.CompositeLit); ok {
-							lit = cl
+	var elts []ast.Expr
+	defined, bad := false, false
+	isName := func(e ast.Expr) bool { id, ok := e.(*ast.Ident); return ok && id.Name == name }
+	for _, st := range fd.Body.List {
+		switch x := st.(type) {
+		case *ast.DeclStmt:
+			if gd, ok := x.Decl.(*ast.GenDecl); ok {
+				for _, sp := range gd.Specs {
+					if vs, ok := sp.(*ast.ValueSpec); ok {
+						for i, n := range vs.Names {
+							if n.Name == name {
+								defined = true
+								if i < len(vs.Values) {
+									if cl, ok := vs.Values[i].(*ast.CompositeLit); ok {
+										elts = append(elts, cl.Elts...)
+									} else {
+										bad = true
+									}
+								}
+							}
 						}
 					}
 				}
 			}
+		case *ast.AssignStmt:
+			for i, l := range x.Lhs {
+				if !isName(l) || len(x.Lhs) != len(x.Rhs) {
+					if isName(l) {
+						bad = true
+					}
+					continue
+				}
+				switch r := x.Rhs[i].(type) {
+				case *ast.CompositeLit:
+					if x.Tok != token.DEFINE || defined {
+						bad = true
+					}
+					defined = true
+					elts = append([]ast.Expr{}, r.Elts...)
+				case *ast.CallExpr:
+					if id, ok := r.Fun.(*ast.Ident); ok && id.Name == "append" && len(r.Args) >= 1 && isName(r.Args[0]) && !r.Ellipsis.IsValid() && defined {
+						elts = append(elts, r.Args[1:]...)
+					} else {
+						bad = true
+					}
+				default:
+					bad = true
+				}
+			}
+		default:
+			// any other statement that mentions the name as an assignment target or an append makes the reading unsafe
+			ast.Inspect(st, func(n ast.Node) bool {
+				if as, ok := n.(*ast.AssignStmt); ok {
+					for _, l := range as.Lhs {
+						if isName(l) {
+							bad = true
+						}
+					}
+				}
+				return true
+			})
 		}
-		return true
-	})
-	if n == 1 {
-		return lit
 	}
-	return nil
+	if !defined || bad {
+		return nil
+	}
+	return &ast.CompositeLit{Elts: elts}
 }
 
 func coqStrList(xs []string) string {
@@ -208,98 +255,267 @@ type extFacts struct {
 	returnsInsideIf     bool        // `return anteHandler(ctx, tx, sim)` inside the len(opts)>0 block
 }
 
-func handlerAssigned(stmts []ast.Stmt) string {
-	name := ""
+// handlerIn: the ante-handler constructor (NewAnteHandler…) that the statements assign or return; "" when there
+// is none, "?multi" when there are several different ones.
+func handlerIn(stmts []ast.Stmt) string {
+	seen := map[string]bool{}
+	note := func(e ast.Expr) {
+		if c, ok := e.(*ast.CallExpr); ok && strings.HasPrefix(lastIdent(c.Fun), "NewAnteHandler") {
+			seen[lastIdent(c.Fun)] = true
+		}
+	}
 	for _, s := range stmts {
 		ast.Inspect(s, func(n ast.Node) bool {
-			as, ok := n.(*ast.AssignStmt)
-			if !ok {
-				return true
+			switch x := n.(type) {
+			case *ast.FuncLit:
+				return false
+			case *ast.AssignStmt:
+				for _, r := range x.Rhs {
+					note(r)
+				}
+			case *ast.ReturnStmt:
+				for _, r := range x.Results {
+					note(r)
+				}
 			}
-			for i, l := range as.Lhs {
-				if id, ok := l.(*ast.Ident); ok && id.Name == "anteHandler" && i < len(as.Rhs) {
-					if c, ok := as.Rhs[i].(*ast.CallExpr); ok {
-						name = lastIdent(c.Fun)
-					} else {
-						name = "?" + Nospace(as.Rhs[i])
+			return true
+		})
+	}
+	switch len(seen) {
+	case 0:
+		return ""
+	case 1:
+		for k := range seen {
+			return k
+		}
+	}
+	return "?multi"
+}
+
+func armOf(stmts []ast.Stmt) string {
+	switch h := handlerIn(stmts); {
+	case firstStmtRejects(stmts):
+		return "ArmReject"
+	case h != "":
+		return "ArmHandler " + CoqString(h)
+	}
+	return "ArmOther"
+}
+
+// stringConst: a string literal, or a package-level constant/variable bound to one.
+func stringConst(files []File, e ast.Expr) (string, bool) {
+	switch x := e.(type) {
+	case *ast.BasicLit:
+		if x.Kind == token.STRING {
+			if v, err := strconv.Unquote(x.Value); err == nil {
+				return v, true
+			}
+		}
+	case *ast.Ident:
+		if v := pkgValue(files, x.Name); v != nil {
+			if _, isId := v.(*ast.Ident); !isId {
+				return stringConst(files, v)
+			}
+		}
+	case *ast.ParenExpr:
+		return stringConst(files, x.X)
+	}
+	return "", false
+}
+
+type routeBody struct {
+	name  string
+	stmts []ast.Stmt
+	node  ast.Node // the function (decl or literal) whose body this is
+}
+
+// definingRHS: the right-hand side the identifier is bound to inside node (also in if/switch Init, also as
+// one of several results of a single call).
+func definingRHS(node ast.Node, name string) ast.Expr {
+	var rhs ast.Expr
+	ast.Inspect(node, func(n ast.Node) bool {
+		as, ok := n.(*ast.AssignStmt)
+		if !ok || rhs != nil {
+			return true
+		}
+		for i, l := range as.Lhs {
+			if id, ok := l.(*ast.Ident); ok && id.Name == name {
+				if len(as.Lhs) == len(as.Rhs) {
+					rhs = as.Rhs[i]
+				} else if len(as.Rhs) == 1 {
+					rhs = as.Rhs[0]
+				}
+			}
+		}
+		return true
+	})
+	return rhs
+}
+
+const firstOptionURL = "[0].GetTypeUrl()"
+
+// isFirstOptionURL: the expression is the type URL of the first extension option — directly, through a local, or
+// through a same-package helper that returns it.
+func isFirstOptionURL(files []File, scope ast.Node, e ast.Expr, depth int) bool {
+	if e == nil || depth > 3 {
+		return false
+	}
+	if strings.Contains(Nospace(e), firstOptionURL) {
+		return true
+	}
+	switch x := e.(type) {
+	case *ast.Ident:
+		return isFirstOptionURL(files, scope, definingRHS(scope, x.Name), depth+1)
+	case *ast.CallExpr:
+		if id, ok := x.Fun.(*ast.Ident); ok {
+			if h := findFunc(files, id.Name, ""); h != nil {
+				found := false
+				ast.Inspect(h.Body, func(n ast.Node) bool {
+					if r, ok := n.(*ast.ReturnStmt); ok && len(r.Results) > 0 && isFirstOptionURL(files, h, r.Results[0], depth+1) {
+						found = true
+					}
+					return true
+				})
+				return found
+			}
+		}
+	}
+	return false
+}
+
+// blockWith finds the statement list that directly contains target, searching below the given list.
+func blockWith(list []ast.Stmt, target ast.Stmt) []ast.Stmt {
+	for _, s := range list {
+		if s == target {
+			return list
+		}
+	}
+	var res []ast.Stmt
+	for _, s := range list {
+		ast.Inspect(s, func(n ast.Node) bool {
+			if res != nil {
+				return false
+			}
+			switch b := n.(type) {
+			case *ast.BlockStmt:
+				for _, t := range b.List {
+					if t == target {
+						res = b.List
+					}
+				}
+			case *ast.CaseClause:
+				for _, t := range b.Body {
+					if t == target {
+						res = b.Body
 					}
 				}
 			}
 			return true
 		})
 	}
-	return name
+	return res
 }
 
-func extSwitch(fd *ast.FuncDecl) extFacts {
+func after(list []ast.Stmt, target ast.Stmt) []ast.Stmt {
+	for i, s := range list {
+		if s == target {
+			return list[i+1:]
+		}
+	}
+	return nil
+}
+
+func hasReturn(stmts []ast.Stmt) bool {
+	for _, s := range stmts {
+		if _, ok := s.(*ast.ReturnStmt); ok {
+			return true
+		}
+	}
+	return false
+}
+
+// extSwitch reads how the ante handler is chosen from the first extension option.  The logic may live in the
+// closure returned by NewAnteHandler or in same-package helpers it calls; it may be a `switch` over the type URL
+// or an `if url ==/!= <eth url>` with guard clauses; the URL may be a literal or a named constant.
+func extSwitch(files []File, fd *ast.FuncDecl) extFacts {
 	f := extFacts{deflt: "ArmMissing", noExt: "?"}
 	if fd == nil {
 		return f
 	}
-	// the handler used when there is no extension option: the anteHandler assignment(s) in the statements of
-	// the returned closure that do NOT contain the extension-option switch (`switch tx.(type) {case sdk.Tx: …}`
-	// or a plain assignment)
+	var bodies []routeBody
 	ast.Inspect(fd.Body, func(n ast.Node) bool {
-		fl, ok := n.(*ast.FuncLit)
-		if !ok {
-			return true
+		if fl, ok := n.(*ast.FuncLit); ok {
+			bodies = append(bodies, routeBody{"closure", fl.Body.List, fl})
 		}
-		var rest []ast.Stmt
-		for _, st := range fl.Body.List {
-			if strings.Contains(Nospace(st), "GetExtensionOptions()") || strings.Contains(Nospace(st), "GetTypeUrl()") {
-				continue
-			}
-			rest = append(rest, st)
-		}
-		if h := handlerAssigned(rest); h != "" {
-			f.noExt = h
-		}
-		return false
+		return true
 	})
-	flLocals := singleDefLocals(fd)
-	ast.Inspect(fd.Body, func(n ast.Node) bool {
-		switch x := n.(type) {
-		case *ast.SwitchStmt:
-			// the string switch over the first option's type url
-			tag := ""
-			if x.Init != nil {
-				tag = Nospace(x.Init)
-			}
-			if x.Tag != nil {
-				tag += "|" + Nospace(x.Tag)
-			}
-			if x.Tag != nil {
-				if id, ok := x.Tag.(*ast.Ident); ok {
-					if v, ok := flLocals[id.Name]; ok {
-						tag += "|" + v
+	bodies = append(bodies, routeBody{fd.Name.Name, fd.Body.List, fd})
+	for _, h := range helperClosure(files, fd)[1:] {
+		bodies = append(bodies, routeBody{h.Name.Name, h.Body.List, h})
+	}
+	for _, rb := range bodies {
+		var sw *ast.SwitchStmt
+		var cmpIf *ast.IfStmt
+		var cmpOp token.Token
+		var cmpOther ast.Expr
+		for _, top := range rb.stmts {
+			ast.Inspect(top, func(n ast.Node) bool {
+				switch x := n.(type) {
+				case *ast.FuncLit:
+					return rb.node == n
+				case *ast.SwitchStmt:
+					if sw != nil {
+						return true
+					}
+					var tag ast.Expr = x.Tag
+					if tag == nil {
+						return true
+					}
+					scope := ast.Node(rb.node)
+					if x.Init != nil {
+						if id, ok := tag.(*ast.Ident); ok {
+							if r := definingRHS(x.Init, id.Name); r != nil {
+								tag = r
+							}
+						}
+					}
+					if isFirstOptionURL(files, scope, tag, 0) {
+						sw = x
+					}
+				case *ast.IfStmt:
+					if cmpIf != nil {
+						return true
+					}
+					if be, ok := x.Cond.(*ast.BinaryExpr); ok && (be.Op == token.EQL || be.Op == token.NEQ) {
+						for _, pair := range [][2]ast.Expr{{be.X, be.Y}, {be.Y, be.X}} {
+							if u, ok := stringConst(files, pair[0]); ok && u == "/eth.evm.v1.ExtensionOptionsEthereumTx" {
+								cmpIf, cmpOp, cmpOther = x, be.Op, pair[1]
+							}
+						}
 					}
 				}
-			}
-			if !strings.Contains(tag, "GetTypeUrl()") {
 				return true
-			}
-			f.switchOnFirstOption = strings.Contains(tag, "opts[0].GetTypeUrl()")
-			for _, c := range x.Body.List {
+			})
+		}
+		if sw == nil && cmpIf == nil {
+			continue
+		}
+		var site ast.Stmt
+		if sw != nil {
+			site = sw
+			f.switchOnFirstOption = true
+			for _, c := range sw.Body.List {
 				cc := c.(*ast.CaseClause)
 				if cc.List == nil {
-					switch {
-					case firstStmtRejects(cc.Body):
-						f.deflt = "ArmReject"
-					case handlerAssigned(cc.Body) != "":
-						f.deflt = "ArmHandler " + CoqString(handlerAssigned(cc.Body))
-					default:
-						f.deflt = "ArmOther"
-					}
+					f.deflt = armOf(cc.Body)
 					continue
 				}
 				for _, e := range cc.List {
-					lit := Nospace(e)
-					if bl, ok := e.(*ast.BasicLit); ok && bl.Kind == token.STRING {
-						if s, err := strconv.Unquote(bl.Value); err == nil {
-							lit = s
-						}
+					lit, ok := stringConst(files, e)
+					if !ok {
+						lit = "?" + Nospace(e)
 					}
-					h := handlerAssigned(cc.Body)
+					h := handlerIn(cc.Body)
 					if h == "" {
 						if firstStmtRejects(cc.Body) {
 							h = "!reject"
@@ -310,17 +526,59 @@ func extSwitch(fd *ast.FuncDecl) extFacts {
 					f.arms = append(f.arms, [2]string{lit, h})
 				}
 			}
-		case *ast.IfStmt:
-			if strings.Contains(Nospace(x.Cond), "len(opts)>0") {
-				for _, s := range x.Body.List {
-					if r, ok := s.(*ast.ReturnStmt); ok && len(r.Results) == 1 && strings.HasPrefix(Nospace(r.Results[0]), "anteHandler(") {
-						f.returnsInsideIf = true
+			// every arm returns, or the enclosing (nested) block returns right after the switch
+			blk := blockWith(rb.stmts, sw)
+			armsReturn := true
+			for _, c := range sw.Body.List {
+				if cc := c.(*ast.CaseClause); !firstStmtRejects(cc.Body) && !hasReturn(cc.Body) {
+					armsReturn = false
+				}
+			}
+			nested := len(blk) > 0 && !(len(rb.stmts) > 0 && &blk[0] == &rb.stmts[0])
+			f.returnsInsideIf = armsReturn || (nested && hasReturn(after(blk, sw)))
+		} else {
+			site = cmpIf
+			f.switchOnFirstOption = isFirstOptionURL(files, rb.node, cmpOther, 0)
+			blk := blockWith(rb.stmts, cmpIf)
+			rest := after(blk, cmpIf)
+			var evmArm, otherArm []ast.Stmt
+			if cmpOp == token.NEQ {
+				otherArm, evmArm = cmpIf.Body.List, rest
+				if cmpIf.Else != nil {
+					if eb, ok := cmpIf.Else.(*ast.BlockStmt); ok {
+						evmArm = eb.List
+					}
+				}
+			} else {
+				evmArm, otherArm = cmpIf.Body.List, rest
+				if cmpIf.Else != nil {
+					if eb, ok := cmpIf.Else.(*ast.BlockStmt); ok {
+						otherArm = eb.List
 					}
 				}
 			}
+			h := handlerIn(evmArm)
+			if h == "" {
+				h = "?"
+			}
+			f.arms = [][2]string{{"/eth.evm.v1.ExtensionOptionsEthereumTx", h}}
+			f.deflt = armOf(otherArm)
+			nested := len(blk) > 0 && !(len(rb.stmts) > 0 && &blk[0] == &rb.stmts[0])
+			f.returnsInsideIf = nested && (hasReturn(evmArm) || hasReturn(rest)) && (firstStmtRejects(otherArm) || hasReturn(otherArm))
 		}
-		return true
-	})
+		// without an extension option: the constructor used by the top-level statements of the routing function
+		// other than the one that holds the comparison
+		var others []ast.Stmt
+		for _, top := range rb.stmts {
+			if !(top.Pos() <= site.Pos() && site.End() <= top.End()) {
+				others = append(others, top)
+			}
+		}
+		if h := handlerIn(others); h != "" {
+			f.noExt = h
+		}
+		break
+	}
 	return f
 }
 
@@ -752,6 +1010,205 @@ func goDirs(repo string, roots ...string) []string {
 	return out
 }
 
+// ---------------------------------------------------------------- per-message dispatch clauses
+
+type dispatchClause struct {
+	types []string // nil: the default clause
+	v     string   // the variable bound to the typed message
+	body  []ast.Stmt
+}
+
+// dispatchClauses reads the statements of a loop body as a dispatch on the message type: the clauses of a type
+// switch, or the bodies of top-level `if v, ok := x.(*T); ok { … } [else if …]` statements.  rest = the top-level
+// statements that follow the switch (or that are not part of the if-chain).
+func dispatchClauses(list []ast.Stmt) (clauses []dispatchClause, rest []ast.Stmt, hasDefault bool) {
+	for i, st := range list {
+		if ts, ok := st.(*ast.TypeSwitchStmt); ok {
+			v := ""
+			if as, ok := ts.Assign.(*ast.AssignStmt); ok && len(as.Lhs) == 1 {
+				if id, ok := as.Lhs[0].(*ast.Ident); ok {
+					v = id.Name
+				}
+			}
+			for _, c := range ts.Body.List {
+				cc := c.(*ast.CaseClause)
+				cl := dispatchClause{v: v, body: cc.Body}
+				if cc.List == nil {
+					hasDefault = true
+				} else {
+					cl.types = []string{}
+					for _, e := range cc.List {
+						cl.types = append(cl.types, typeName(e))
+					}
+				}
+				clauses = append(clauses, cl)
+			}
+			return clauses, list[i+1:], hasDefault
+		}
+	}
+	for _, st := range list {
+		ifs, ok := st.(*ast.IfStmt)
+		matched := false
+		for ok && ifs != nil {
+			as, isAs := ifs.Init.(*ast.AssignStmt)
+			if !isAs || len(as.Lhs) != 2 || len(as.Rhs) != 1 {
+				break
+			}
+			ta, isTa := as.Rhs[0].(*ast.TypeAssertExpr)
+			okId, isId := as.Lhs[1].(*ast.Ident)
+			if !isTa || ta.Type == nil || !isId || Nospace(ifs.Cond) != okId.Name {
+				break
+			}
+			matched = true
+			clauses = append(clauses, dispatchClause{types: []string{typeName(ta.Type)}, v: Nospace(as.Lhs[0]), body: ifs.Body.List})
+			switch e := ifs.Else.(type) {
+			case *ast.IfStmt:
+				ifs = e
+			case *ast.BlockStmt:
+				clauses = append(clauses, dispatchClause{body: e.List})
+				hasDefault = true
+				ifs = nil
+			default:
+				ifs = nil
+			}
+		}
+		if !matched {
+			rest = append(rest, st)
+		}
+	}
+	return clauses, rest, hasDefault
+}
+
+// ---------------------------------------------------------------- flattening a handler into its guards
+
+func findMethodAnyRecv(files []File, name string) *ast.FuncDecl {
+	for _, fl := range files {
+		for _, d := range fl.F.Decls {
+			if fd, ok := d.(*ast.FuncDecl); ok && fd.Name.Name == name && fd.Body != nil {
+				return fd
+			}
+		}
+	}
+	return nil
+}
+
+// canonNames: parameter (and receiver) names of fn → canonical names, by parameter type.
+func canonNames(fn *ast.FuncDecl) map[string]string {
+	m := map[string]string{}
+	if fn.Type.Params != nil {
+		for _, f := range fn.Type.Params.List {
+			c := ""
+			switch strings.TrimPrefix(Nospace(f.Type), "*") {
+			case "sdk.Msg":
+				c = "msg"
+			case "sdk.Address", "sdk.AccAddress":
+				c = "contractAddr"
+			}
+			if c != "" {
+				for _, n := range f.Names {
+					m[n.Name] = c
+				}
+			}
+		}
+	}
+	if fn.Recv != nil && len(fn.Recv.List) == 1 && len(fn.Recv.List[0].Names) == 1 {
+		m[fn.Recv.List[0].Names[0].Name] = "h"
+	}
+	return m
+}
+
+// canonText prints a node with the parameters of fn renamed to their canonical names.
+func canonText(fn *ast.FuncDecl, n ast.Node) string {
+	t := Nospace(n)
+	for from, to := range canonNames(fn) {
+		if from != to {
+			t = regexp.MustCompile(`\b`+regexp.QuoteMeta(from)+`\b`).ReplaceAllString(t, to)
+		}
+	}
+	return t
+}
+
+type flatItem struct {
+	fn       *ast.FuncDecl
+	stmt     ast.Stmt      // a statement that is not a guard call
+	text     string        // canonical text of the statement (or of the call)
+	call     *ast.CallExpr // a guard / tail call that could not be inlined
+	callText string
+}
+
+// samePkgCallee: the function or method of the same package a call refers to (plain identifier, or a method
+// called on the receiver of the calling function).
+func samePkgCallee(files []File, caller *ast.FuncDecl, c *ast.CallExpr) *ast.FuncDecl {
+	switch f := c.Fun.(type) {
+	case *ast.Ident:
+		return findFunc(files, f.Name, "")
+	case *ast.SelectorExpr:
+		if id, ok := f.X.(*ast.Ident); ok && caller.Recv != nil && len(caller.Recv.List) == 1 && len(caller.Recv.List[0].Names) == 1 &&
+			caller.Recv.List[0].Names[0].Name == id.Name {
+			for _, fl := range files {
+				for _, d := range fl.F.Decls {
+					if fd, ok := d.(*ast.FuncDecl); ok && fd.Recv != nil && fd.Name.Name == f.Sel.Name && fd.Body != nil {
+						return fd
+					}
+				}
+			}
+		}
+	}
+	return nil
+}
+
+func flattenGuards(files []File, fn *ast.FuncDecl, depth int, out *[]flatItem) {
+	list := fn.Body.List
+	errChecked := func(i int, name string) bool {
+		if i+1 >= len(list) {
+			return false
+		}
+		ifs, ok := list[i+1].(*ast.IfStmt)
+		return ok && ifs.Init == nil && Nospace(ifs.Cond) == name+"!=nil" && returnsError(ifs.Body)
+	}
+	skip := map[int]bool{}
+	for i, st := range list {
+		if skip[i] {
+			continue
+		}
+		var call *ast.CallExpr
+		switch x := st.(type) {
+		case *ast.IfStmt:
+			if as, ok := x.Init.(*ast.AssignStmt); ok && len(as.Rhs) == 1 && returnsError(x.Body) && strings.HasSuffix(Nospace(x.Cond), "!=nil") && x.Else == nil {
+				if c, ok := as.Rhs[0].(*ast.CallExpr); ok {
+					call = c
+				}
+			}
+		case *ast.AssignStmt:
+			if len(x.Rhs) == 1 && len(x.Lhs) >= 1 {
+				if c, ok := x.Rhs[0].(*ast.CallExpr); ok {
+					if id, ok := x.Lhs[len(x.Lhs)-1].(*ast.Ident); ok && len(x.Lhs) == 1 && errChecked(i, id.Name) {
+						call = c
+						skip[i+1] = true
+					}
+				}
+			}
+		case *ast.ReturnStmt:
+			if len(x.Results) == 1 {
+				if c, ok := x.Results[0].(*ast.CallExpr); ok {
+					call = c
+				}
+			}
+		}
+		if call != nil {
+			if callee := samePkgCallee(files, fn, call); callee != nil && depth < 3 {
+				flattenGuards(files, callee, depth+1, out)
+				continue
+			}
+			if _, isRet := st.(*ast.ReturnStmt); !isRet || strings.Contains(strings.ToLower(lastIdent(call.Fun)), "commission") {
+				*out = append(*out, flatItem{fn: fn, call: call, callText: canonText(fn, call), text: canonText(fn, call)})
+				continue
+			}
+		}
+		*out = append(*out, flatItem{fn: fn, stmt: st, text: canonText(fn, st)})
+	}
+}
+
 // ---------------------------------------------------------------- main entry
 
 // Emit prints every definition (the caller has printed the header).
@@ -767,7 +1224,7 @@ func Emit(repo string) {
 	fmt.Printf("Definition nonevm_chain : list string := %s.\n", coqStrList(chainOf(findFunc(appFiles, "NewAnteHandlerNonEVM", ""))))
 	fmt.Printf("Definition evm_chain : list string := %s.\n", coqStrList(chainOf(findFunc(evmAnteFiles, "NewAnteHandlerEVM", ""))))
 
-	x := extSwitch(findFunc(appFiles, "NewAnteHandler", ""))
+	x := extSwitch(appFiles, findFunc(appFiles, "NewAnteHandler", ""))
 	var arms []string
 	for _, a := range x.arms {
 		arms = append(arms, fmt.Sprintf("(%s, %s)", CoqString(a[0]), CoqString(a[1])))
@@ -780,41 +1237,9 @@ func Emit(repo string) {
 	gc := guardOf(anteFiles, "AnteDecoratorStakingCommission")
 	printGuard("guard_commission", gc)
 
-	// commission comparison sites: the type-switch clauses for MsgCreateValidator / MsgEditValidator
+	// commission comparison sites and scan order: the per-message dispatch inside the loop over the message list,
+	// written either as a type switch or as a chain of `if v, ok := msg.(*T); ok { … }` statements
 	create, edit := cmpFacts{operand: "?", method: "?", bound: "?"}, cmpFacts{operand: "?", method: "?", bound: "?"}
-	if fd := findFunc(anteFiles, "AnteHandle", "AnteDecoratorStakingCommission"); fd != nil {
-		for _, f := range helperClosure(anteFiles, fd) {
-			ast.Inspect(f.Body, func(n ast.Node) bool {
-				ts, ok := n.(*ast.TypeSwitchStmt)
-				if !ok {
-					return true
-				}
-				env := cmpEnv{fnLocals: singleDefLocals(f)}
-				if as, ok := ts.Assign.(*ast.AssignStmt); ok && len(as.Lhs) == 1 {
-					if id, ok := as.Lhs[0].(*ast.Ident); ok {
-						env.switchVar = id.Name
-					}
-				}
-				for _, c := range ts.Body.List {
-					cc := c.(*ast.CaseClause)
-					for _, e := range cc.List {
-						switch typeName(e) {
-						case "stakingtypes.MsgCreateValidator":
-							create = cmpIn(env, cc.Body)
-						case "stakingtypes.MsgEditValidator":
-							edit = cmpIn(env, cc.Body)
-						}
-					}
-				}
-				return true
-			})
-		}
-	}
-	printCmp("commission_create_site", create)
-	printCmp("commission_edit_site", edit)
-
-	// does the loop over the message list go on after each clause?  (an unconditional `return` in a clause, or
-	// after the switch, ends the scan: later messages of the same list are never checked)
 	afterExec, afterCreate, afterEdit, afterOther, afterSwitch := false, false, false, false, false
 	if fd := findFunc(anteFiles, "AnteHandle", "AnteDecoratorStakingCommission"); fd != nil {
 		for _, f := range helperClosure(anteFiles, fd) {
@@ -828,47 +1253,47 @@ func Emit(repo string) {
 				default:
 					return true
 				}
-				rs := struct{ Body *ast.BlockStmt }{loopBody}
-				for i, st := range rs.Body.List {
-					ts, ok := st.(*ast.TypeSwitchStmt)
-					if !ok {
-						continue
-					}
-					staking := false
-					for _, c := range ts.Body.List {
-						for _, e := range c.(*ast.CaseClause).List {
-							if typeName(e) == "stakingtypes.MsgCreateValidator" {
-								staking = true
-							}
+				clauses, rest, hasDefault := dispatchClauses(loopBody.List)
+				staking := false
+				for _, c := range clauses {
+					for _, t := range c.types {
+						if t == "stakingtypes.MsgCreateValidator" {
+							staking = true
 						}
 					}
-					if !staking {
-						continue
-					}
-					afterOther = true // no default clause: other messages fall out of the switch
-					for _, c := range ts.Body.List {
-						cc := c.(*ast.CaseClause)
-						goesOn := !hasTopLevelReturn(cc.Body)
-						if cc.List == nil {
-							afterOther = goesOn
-						}
-						for _, e := range cc.List {
-							switch typeName(e) {
-							case "stakingtypes.MsgCreateValidator":
-								afterCreate = goesOn
-							case "stakingtypes.MsgEditValidator":
-								afterEdit = goesOn
-							case "authz.MsgExec":
-								afterExec = goesOn
-							}
-						}
-					}
-					afterSwitch = !hasTopLevelReturn(rs.Body.List[i+1:])
 				}
+				if !staking {
+					return true
+				}
+				if !hasDefault {
+					afterOther = true // other messages fall out of the dispatch
+				}
+				for _, c := range clauses {
+					env := cmpEnv{fnLocals: singleDefLocals(f), switchVar: c.v}
+					goesOn := !hasTopLevelReturn(c.body)
+					if c.types == nil {
+						afterOther = goesOn
+					}
+					for _, t := range c.types {
+						switch t {
+						case "stakingtypes.MsgCreateValidator":
+							create = cmpIn(env, c.body)
+							afterCreate = goesOn
+						case "stakingtypes.MsgEditValidator":
+							edit = cmpIn(env, c.body)
+							afterEdit = goesOn
+						case "authz.MsgExec":
+							afterExec = goesOn
+						}
+					}
+				}
+				afterSwitch = !hasTopLevelReturn(rest)
 				return true
 			})
 		}
 	}
+	printCmp("commission_create_site", create)
+	printCmp("commission_edit_site", edit)
 	fmt.Printf("Definition commission_scan : scan_facts := {| s_after_exec := %s; s_after_create := %s; s_after_edit := %s; s_after_other := %s; s_after_switch := %s |}.\n",
 		CoqBool(afterExec), CoqBool(afterCreate), CoqBool(afterEdit), CoqBool(afterOther), CoqBool(afterSwitch))
 
@@ -886,87 +1311,49 @@ func Emit(repo string) {
 		fmt.Printf("Definition max_commission_raw : option Z := Some (%s)%%Z.\n", raw)
 	}
 
-	// wasm message handler
-	wh := findFunc(wasmFiles, "handleSdkMessage", "SDKMessageHandler")
+	// wasm message handler: handleSdkMessage, read as the straight-line sequence of guards it applies before
+	// routing — same-package helpers called in guard position (`if err := f(…); err != nil { return }`) or in
+	// tail position (`return f(…)`) are inlined (3 levels), parameters are identified by TYPE (sdk.Msg → msg,
+	// sdk.Address/sdk.AccAddress → contractAddr), so moving code to other files, splitting it into helpers and
+	// renaming receivers/parameters do not change what is read
 	var vb, signer, refusesEth, commission, routes bool
-	if wh != nil {
-		routePos := token.Pos(0)
-		ast.Inspect(wh.Body, func(n ast.Node) bool {
-			if c, ok := n.(*ast.CallExpr); ok && Nospace(c) == "h.router.Handler(msg)" && routePos == 0 {
-				routePos = c.Pos()
-				routes = true
-			}
-			return true
-		})
+	if wh := findMethodAnyRecv(wasmFiles, "handleSdkMessage"); wh != nil {
+		var items []flatItem
+		flattenGuards(wasmFiles, wh, 0, &items)
 		isEthType := func(e ast.Expr) bool { return strings.TrimPrefix(Nospace(e), "*") == "evm.MsgEthereumTx" }
-		locals := singleDefLocals(wh)
-		unfold := func(e ast.Expr) string {
-			t := Nospace(e)
-			if v, ok := locals[t]; ok {
-				return v
-			}
-			return t
-		}
-		isEthURL := func(e ast.Expr) bool {
-			t := unfold(e)
-			return t == "sdk.MsgTypeURL(new(evm.MsgEthereumTx))" || t == "sdk.MsgTypeURL(&evm.MsgEthereumTx{})"
-		}
-		// errVarChecked: the statement after index i is `if <name> != nil { return …err }`
-		errChecked := func(i int, name string) bool {
-			if i+1 >= len(wh.Body.List) {
-				return false
-			}
-			ifs, ok := wh.Body.List[i+1].(*ast.IfStmt)
-			return ok && ifs.Init == nil && Nospace(ifs.Cond) == name+"!=nil" && returnsError(ifs.Body)
-		}
-		// unconditional guard calls: `if err := CALL; err != nil { return }` or `err := CALL` + `if err != nil { return }`
-		guardCall := func(i int, st ast.Stmt) *ast.CallExpr {
-			switch x := st.(type) {
-			case *ast.IfStmt:
-				if as, ok := x.Init.(*ast.AssignStmt); ok && len(as.Rhs) == 1 && returnsError(x.Body) && strings.HasSuffix(Nospace(x.Cond), "!=nil") {
-					if c, ok := as.Rhs[0].(*ast.CallExpr); ok {
-						return c
-					}
-				}
-			case *ast.AssignStmt:
-				if len(x.Rhs) == 1 && len(x.Lhs) >= 1 {
-					if c, ok := x.Rhs[0].(*ast.CallExpr); ok {
-						if id, ok := x.Lhs[len(x.Lhs)-1].(*ast.Ident); ok && errChecked(i, id.Name) {
-							return c
-						}
-					}
-				}
-			}
-			return nil
-		}
-		for i, s := range wh.Body.List {
-			if routePos != 0 && s.Pos() >= routePos {
+		for _, it := range items {
+			if strings.Contains(it.text, ".Handler(msg)") {
+				routes = true
 				break
 			}
-			src := Nospace(s)
-			if c := guardCall(i, s); c != nil {
-				cs := Nospace(c)
-				if cs == "msg.ValidateBasic()" {
+			locals := singleDefLocals(it.fn)
+			isEthURL := func(e ast.Expr) bool {
+				t := Nospace(e)
+				if v, ok := locals[t]; ok {
+					t = v
+				}
+				return t == "sdk.MsgTypeURL(new(evm.MsgEthereumTx))" || t == "sdk.MsgTypeURL(&evm.MsgEthereumTx{})"
+			}
+			if it.call != nil {
+				if it.callText == "msg.ValidateBasic()" {
 					vb = true
 				}
-				if strings.Contains(strings.ToLower(lastIdent(c.Fun)), "commission") && strings.Contains(cs, "msg") {
+				if strings.Contains(strings.ToLower(lastIdent(it.call.Fun)), "commission") && strings.Contains(it.callText, "msg") {
 					commission = true // applied to every dispatched message, whatever its type
 				}
+				continue
 			}
-			switch x := s.(type) {
+			switch x := it.stmt.(type) {
 			case *ast.IfStmt:
-				// `if typeURL == sdk.MsgTypeURL(new(evm.MsgEthereumTx)) { return err }` (either side, local unfolded)
 				if be, ok := x.Cond.(*ast.BinaryExpr); ok && be.Op == token.EQL && (isEthURL(be.X) || isEthURL(be.Y)) && returnsError(x.Body) {
 					refusesEth = true
 				}
-				// `if _, ok := msg.(*evm.MsgEthereumTx); ok { return err }`
 				if as, ok := x.Init.(*ast.AssignStmt); ok && len(as.Rhs) == 1 {
-					if ta, ok := as.Rhs[0].(*ast.TypeAssertExpr); ok && ta.Type != nil && isEthType(ta.Type) && Nospace(ta.X) == "msg" && returnsError(x.Body) {
+					if ta, ok := as.Rhs[0].(*ast.TypeAssertExpr); ok && ta.Type != nil && isEthType(ta.Type) && canonText(it.fn, ta.X) == "msg" && returnsError(x.Body) {
 						refusesEth = true
 					}
 				}
 			case *ast.TypeSwitchStmt:
-				// `switch msg.(type) { case *evm.MsgEthereumTx: return err … }`
 				for _, c := range x.Body.List {
 					cc := c.(*ast.CaseClause)
 					for _, e := range cc.List {
@@ -976,7 +1363,6 @@ func Emit(repo string) {
 					}
 				}
 			case *ast.SwitchStmt:
-				// `switch sdk.MsgTypeURL(msg) { case sdk.MsgTypeURL(&evm.MsgEthereumTx{}): return err }`
 				for _, c := range x.Body.List {
 					cc := c.(*ast.CaseClause)
 					for _, e := range cc.List {
@@ -986,7 +1372,7 @@ func Emit(repo string) {
 					}
 				}
 			case *ast.RangeStmt:
-				if strings.Contains(Nospace(x.X), "msg.GetSigners()") && strings.Contains(src, ".Equals(contractAddr)") && returnsError(x.Body) {
+				if strings.Contains(canonText(it.fn, x.X), "msg.GetSigners()") && strings.Contains(it.text, ".Equals(contractAddr)") && returnsError(x.Body) {
 					signer = true
 				}
 			}
